@@ -27,6 +27,12 @@ pub fn rebuild(
 			declaration.rebuild(indentation)?
 		)?;
 	}
+	if program.is_empty()
+	{
+		// A module without declarations is still a source file,
+		// and a source file of zero bytes is an error (E101).
+		writeln!(&mut buffer, "{}", indentation)?;
+	}
 	Ok(buffer)
 }
 
